@@ -153,11 +153,25 @@ class Sim:
         handler = self.client.handlers.get(name) if self.client else None
         if handler is None:
             return
+        restore = None
+        if kind == "row_gen" and isinstance(ev[1], dict) and ev[1].get("type") == "composition":
+            # a composition is fetched from CompLib while the message is handled: the third item of the event is the
+            # decoded payload the (fake) site answers with; absent = HTTP 404
+            import json as _json
+            from wheatley.row_generation import complib_composition_generator as ccg
+            from suites.gens import fake_requests_get
+            payload = ev[2] if len(ev) > 2 else None
+            restore = (ccg, ccg.requests.get)
+            ccg.requests.get = (fake_requests_get(_json.dumps(payload)) if payload is not None
+                                else fake_requests_get("not found", status=404))
         try:
             handler(data)
         except Exception as e:  # pylint: disable=broad-except
             import coqfmt
             self.log("handler_exn", coqfmt.exn_kind(e))
+        finally:
+            if restore is not None:
+                restore[0].requests.get = restore[1]
 
 
 def make_logging_rhythm(sim, inner):
